@@ -900,29 +900,31 @@ func worldTFBad() *World {
 func kinds() *World {
 	s := &schema.BodySchema{
 		Attributes: map[string]*schema.AttributeSchema{
-			"kw":    {IsOptional: true, Constraint: schema.Keyword{Keyword: "auto", Description: md("automatic")}},
-			"lv":    {IsOptional: true, Constraint: schema.OneOf{schema.LiteralValue{Value: cty.StringVal("on")}, schema.LiteralValue{Value: cty.False}, schema.LiteralValue{Value: cty.NumberIntVal(42)}}},
-			"str":   {IsOptional: true, Constraint: schema.LiteralType{Type: cty.String}},
-			"num":   {IsRequired: true, Constraint: schema.LiteralType{Type: cty.Number}},
-			"flag":  {IsOptional: true, Constraint: schema.LiteralType{Type: cty.Bool}},
-			"ref":   {IsOptional: true, Constraint: schema.Reference{OfType: cty.String}},
-			"sref":  {IsOptional: true, Constraint: schema.Reference{OfScopeId: "thing"}},
-			"td":    {IsOptional: true, Constraint: schema.TypeDeclaration{}},
-			"td2":   {IsOptional: true, Constraint: schema.TypeDeclaration{}},
-			"td3":   {IsOptional: true, Constraint: schema.TypeDeclaration{}},
-			"lst":   {IsOptional: true, Constraint: schema.List{Elem: schema.LiteralType{Type: cty.String}}},
-			"st":    {IsOptional: true, Constraint: schema.Set{Elem: schema.Reference{OfScopeId: "thing"}}},
-			"tup":   {IsOptional: true, Constraint: schema.Tuple{Elems: []schema.Constraint{schema.LiteralType{Type: cty.String}, schema.Reference{OfType: cty.Number}}}},
-			"mp":    {IsOptional: true, Constraint: schema.Map{Elem: schema.AnyExpression{OfType: cty.Number}, AllowInterpolatedKeys: true}},
-			"obj":   {IsOptional: true, Constraint: schema.Object{AllowInterpolatedKeys: true, Attributes: schema.ObjectAttributes{"p": {IsRequired: true, Constraint: schema.LiteralType{Type: cty.String}}, "q": {IsOptional: true, Constraint: schema.AnyExpression{OfType: cty.Bool}}}}},
-			"any_s": {IsOptional: true, Constraint: schema.AnyExpression{OfType: cty.String}},
-			"any_l": {IsOptional: true, Constraint: schema.AnyExpression{OfType: cty.List(cty.Number)}},
-			"any_o": {IsOptional: true, Constraint: schema.AnyExpression{OfType: cty.Object(map[string]cty.Type{"k": cty.String})}},
-			"any_d": {IsOptional: true, Constraint: schema.AnyExpression{OfType: cty.DynamicPseudoType}},
-			"lt_l":  {IsOptional: true, Constraint: schema.LiteralType{Type: cty.List(cty.String)}},
-			"lt_m":  {IsOptional: true, Constraint: schema.LiteralType{Type: cty.Map(cty.Number)}},
-			"lt_o":  {IsOptional: true, Constraint: schema.LiteralType{Type: cty.Object(map[string]cty.Type{"k": cty.String, "n": cty.Number})}},
-			"lt_t":  {IsOptional: true, Constraint: schema.LiteralType{Type: cty.Tuple([]cty.Type{cty.String, cty.Bool})}},
+			"kw":     {IsOptional: true, Constraint: schema.Keyword{Keyword: "auto", Description: md("automatic")}},
+			"lv":     {IsOptional: true, Constraint: schema.OneOf{schema.LiteralValue{Value: cty.StringVal("on")}, schema.LiteralValue{Value: cty.False}, schema.LiteralValue{Value: cty.NumberIntVal(42)}}},
+			"str":    {IsOptional: true, Constraint: schema.LiteralType{Type: cty.String}},
+			"num":    {IsRequired: true, Constraint: schema.LiteralType{Type: cty.Number}},
+			"flag":   {IsOptional: true, Constraint: schema.LiteralType{Type: cty.Bool}},
+			"ref":    {IsOptional: true, Constraint: schema.Reference{OfType: cty.String}},
+			"sref":   {IsOptional: true, Constraint: schema.Reference{OfScopeId: "thing"}},
+			"td":     {IsOptional: true, Constraint: schema.TypeDeclaration{}},
+			"td2":    {IsOptional: true, Constraint: schema.TypeDeclaration{}},
+			"td3":    {IsOptional: true, Constraint: schema.TypeDeclaration{}},
+			"td4":    {IsOptional: true, Constraint: schema.TypeDeclaration{}},
+			"any_ns": {IsOptional: true, Constraint: schema.AnyExpression{OfType: cty.String}},
+			"lst":    {IsOptional: true, Constraint: schema.List{Elem: schema.LiteralType{Type: cty.String}}},
+			"st":     {IsOptional: true, Constraint: schema.Set{Elem: schema.Reference{OfScopeId: "thing"}}},
+			"tup":    {IsOptional: true, Constraint: schema.Tuple{Elems: []schema.Constraint{schema.LiteralType{Type: cty.String}, schema.Reference{OfType: cty.Number}}}},
+			"mp":     {IsOptional: true, Constraint: schema.Map{Elem: schema.AnyExpression{OfType: cty.Number}, AllowInterpolatedKeys: true}},
+			"obj":    {IsOptional: true, Constraint: schema.Object{AllowInterpolatedKeys: true, Attributes: schema.ObjectAttributes{"p": {IsRequired: true, Constraint: schema.LiteralType{Type: cty.String}}, "q": {IsOptional: true, Constraint: schema.AnyExpression{OfType: cty.Bool}}}}},
+			"any_s":  {IsOptional: true, Constraint: schema.AnyExpression{OfType: cty.String}},
+			"any_l":  {IsOptional: true, Constraint: schema.AnyExpression{OfType: cty.List(cty.Number)}},
+			"any_o":  {IsOptional: true, Constraint: schema.AnyExpression{OfType: cty.Object(map[string]cty.Type{"k": cty.String})}},
+			"any_d":  {IsOptional: true, Constraint: schema.AnyExpression{OfType: cty.DynamicPseudoType}},
+			"lt_l":   {IsOptional: true, Constraint: schema.LiteralType{Type: cty.List(cty.String)}},
+			"lt_m":   {IsOptional: true, Constraint: schema.LiteralType{Type: cty.Map(cty.Number)}},
+			"lt_o":   {IsOptional: true, Constraint: schema.LiteralType{Type: cty.Object(map[string]cty.Type{"k": cty.String, "n": cty.Number})}},
+			"lt_t":   {IsOptional: true, Constraint: schema.LiteralType{Type: cty.Tuple([]cty.Type{cty.String, cty.Bool})}},
 		},
 		Blocks: map[string]*schema.BlockSchema{
 			"thing": {
@@ -958,6 +960,8 @@ sref = thing.b
 td   = map(list(object({ a = string, b = optional(number, 1) })))
 td2  = tuple([string, set(number)])
 td3  = map(object())
+td4  = a :: list(string)
+any_ns = a :: upper("x")
 lst  = ["x", "yy"]
 st   = [thing.a, thing.b]
 tup  = ["s", thing.a.n]
@@ -1178,7 +1182,7 @@ func modsSchemaRoot() *schema.BodySchema {
 					"source": {IsRequired: true, IsDepKey: true, Constraint: schema.LiteralType{Type: cty.String}}}},
 				DependentBody: map[schema.SchemaKey]*schema.BodySchema{
 					attrDepStr("source", "./mod"): {
-						Targets: &schema.Target{Path: modPath, Range: sentinelRange},
+						Targets:    &schema.Target{Path: modPath, Range: sentinelRange},
 						Attributes: map[string]*schema.AttributeSchema{"name": input(), "size": input()},
 						ImpliedOrigins: schema.ImpliedOrigins{{OriginAddress: lang.Address{lang.RootStep{Name: "module"}, lang.AttrStep{Name: "m"}, lang.AttrStep{Name: "x"}},
 							TargetAddress: lang.Address{lang.RootStep{Name: "output"}, lang.AttrStep{Name: "x"}}, Path: modPath, Constraints: schema.Constraints{ScopeId: "output"}}},
